@@ -111,3 +111,117 @@ func TestC02NilOrigin(t *testing.T) {
 		}
 	}
 }
+
+//go:noinline
+func tinyN0(i int) int { return i + 1 }
+
+//go:noinline
+func tinyN1(i int) int { return i + 2 }
+
+//go:noinline
+func tinyN2(i int) int { return i + 3 }
+
+//go:noinline
+func tinyN3(i int) int { return i + 4 }
+
+// TestC02TinyNeighbours: functions of a few bytes lie in adjacent 32-byte slots; mocking, re-applying and cancelling one
+// of them in every order never changes a byte of its neighbours (beyond a neighbour's own entry jump while that one is
+// mocked), and after the last Reset the image is pristine.
+func TestC02TinyNeighbours(t *testing.T) {
+	rep := vmon.NewReport("C02")
+	defer rep.Write()
+	img := vmon.SnapshotText()
+	fs := []func(int) int{tinyN0, tinyN1, tinyN2, tinyN3}
+	entry := make([]uintptr, len(fs))
+	adjacent := 0
+	for i, f := range fs {
+		entry[i] = vmon.FuncCodePtr(f)
+		if i > 0 && entry[i]-entry[i-1] == 32 {
+			adjacent++
+		}
+	}
+	rep.Stat("tiny_neighbour_pairs_32_bytes_apart", int64(adjacent))
+	rng := vmon.NewRng(vmon.Seed(), 2222)
+	n := vmon.EnvInt("VERIF_C02_TINY", 300)
+	for h := 0; h < n; h++ {
+		bs := make([]*mocker.Builder, len(fs))
+		val := make([]int, len(fs)) // 0: not mocked
+		hist := ""
+		steps := 4 + rng.Intn(8)
+		ok := true
+		for s := 0; s < steps && ok; s++ {
+			i := rng.Intn(len(fs))
+			var perr interface{}
+			switch op := rng.Intn(4); {
+			case op <= 1: // apply or re-apply
+				v := 5000 + h*16 + s
+				hist += fmt.Sprintf("apply(%d) ", i)
+				if bs[i] == nil {
+					bs[i] = mocker.Create()
+				}
+				func() {
+					defer func() { perr = recover() }()
+					if op == 0 || val[i] != 0 { // (a second Return on a live stub would extend its sequence)
+						bs[i].Func(fs[i]).Apply(func(int) int { return v })
+					} else {
+						bs[i].Func(fs[i]).Return(v)
+					}
+				}()
+				if perr == nil {
+					val[i] = v
+				}
+			default:
+				hist += fmt.Sprintf("reset(%d) ", i)
+				if bs[i] != nil {
+					func() { defer func() { perr = recover() }(); bs[i].Reset() }()
+					val[i] = 0
+				}
+			}
+			rep.Eval(1)
+			if perr != nil {
+				rep.Note("tiny-neighbours", fmt.Sprintf("[%s] refused: %v", hist, perr))
+			}
+			var allowed []vmon.Range
+			for k := range fs {
+				if val[k] != 0 {
+					allowed = append(allowed, vmon.Range{Start: entry[k], End: entry[k] + 13})
+				}
+			}
+			if d := img.DiffOutside(allowed); len(d) != 0 {
+				rep.Violate("C02/stray-bytes-differ", fmt.Sprintf("functions in adjacent slots (entries %#x) after [%s]: the image differs outside the entry jumps of the functions mocked now (%v): %v", entry, hist, val, d), map[string]interface{}{"history": hist})
+				ok = false
+				break
+			}
+			for k, f := range fs {
+				want := 7 + k + 1
+				if val[k] != 0 {
+					want = val[k]
+					if !img.Contains(entry[k]) || string(vmon.ReadMem(entry[k], 13)) == string(img.Pristine(entry[k], 13)) {
+						rep.Violate("C02/mocked-target-has-pristine-bytes", fmt.Sprintf("tiny function %d after [%s]: mocked, but its entry holds the pristine bytes", k, hist), map[string]interface{}{"history": hist})
+						ok = false
+						break
+					}
+				}
+				if got := f(7); got != want {
+					rep.Violate("C02/mocked-behaviour-wrong", fmt.Sprintf("tiny function %d after [%s]: call gives %d, want %d", k, hist, got, want), map[string]interface{}{"history": hist})
+					ok = false
+					break
+				}
+			}
+		}
+		for _, b := range bs {
+			if b != nil {
+				func() { defer func() { recover() }(); b.Reset() }()
+			}
+		}
+		if d := img.Diff(); len(d) != 0 {
+			rep.Violate("C02/bytes-not-restored", fmt.Sprintf("functions in adjacent slots after [%s] and the Reset of every builder: the image differs from the pristine one at %v", hist, d), map[string]interface{}{"history": hist})
+			rep.Write()
+			return
+		}
+		rep.Class(fmt.Sprintf("tiny-neighbours/steps=%d", steps))
+	}
+	if adjacent == 0 {
+		rep.Note("tiny-neighbours", "the linker placed none of the four functions 32 bytes behind its predecessor")
+	}
+}
